@@ -29,7 +29,25 @@ PodTags     == {"u8", "i32", "u64", "f64", "pod"}        \* written/read by the 
 IntArrTags  == {"OwnedArray<int>", "ArrayView<int>", "FixedArray<int>", "AbstractArray<int>&"}
 ByteArrTags == {"FixedArrayView<uint8_t>"}
 ArrTags     == IntArrTags \cup ByteArrTags               \* the array wrapper types: size_t n, then n elements
-Tags        == PodTags \cup {"str", "cstr", "vi", "vs", "vvi", "raw"} \cup ArrTags
+\* strings: "str" / "cstr" carry a TLA+ string (no NUL byte; "cstr" is written from a const char*);
+\* "bstr" / "cstrb" carry the list of their character codes 0..255 - binary payloads, NUL bytes
+\* included - written from a std::string ("bstr") or from its c_str() ("cstrb");
+\* "vbs" = std::vector<std::string>, "vvbs" = std::vector<std::vector<std::string>> of code lists
+StrTags     == {"str", "cstr", "bstr"}
+VsTags      == {"vs", "vbs"}
+Tags        == PodTags \cup StrTags \cup VsTags \cup {"cstrb", "vvbs", "vi", "vvi", "raw"} \cup ArrTags
+
+\* The two string overloads have different contracts and both are pinned:
+\*   operator<<(WriteStream&, const std::string&) writes size() bytes - every byte of the string;
+\*   operator<<(WriteStream&, const char*)        writes strlen() bytes - up to the first NUL.
+RECURSIVE CPrefix(_)
+CPrefix(c) == IF c = <<>> \/ Head(c) = 0 THEN <<>> ELSE <<Head(c)>> \o CPrefix(Tail(c))
+Val(it) == IF it.t = "cstrb" THEN CPrefix(it.v) ELSE it.v      \* the value the stream carries for an item
+NulIn(c) == \E i \in DOMAIN c : c[i] = 0
+HasNul(it) == CASE it.t \in {"bstr", "cstrb"} -> NulIn(it.v)
+                [] it.t = "vbs"  -> \E i \in DOMAIN it.v : NulIn(it.v[i])
+                [] it.t = "vvbs" -> \E i \in DOMAIN it.v : \E j \in DOMAIN it.v[i] : NulIn(it.v[i][j])
+                [] OTHER -> FALSE
 
 PodSize(t) == CASE t = "u8" -> 1 [] t = "i32" -> 4 [] t = "u64" -> 8 [] t = "f64" -> 8
                 [] t = "pod" -> 12   \* struct { int32_t a; float b; uint8_t c; }: sizeof = 12
@@ -38,16 +56,19 @@ SizeT == 8                                               \* every length prefix 
 
 StrEnc(str) == SizeT + Len(str)
 VecIntEnc(v) == SizeT + 4 * Len(v)
-RECURSIVE SumStrEnc(_), SumVecIntEnc(_)
+RECURSIVE SumStrEnc(_), SumVecIntEnc(_), SumVecStrEnc(_)
 SumStrEnc(q)    == IF q = <<>> THEN 0 ELSE StrEnc(Head(q)) + SumStrEnc(Tail(q))
+SumVecStrEnc(q) == IF q = <<>> THEN 0 ELSE (SizeT + SumStrEnc(Head(q))) + SumVecStrEnc(Tail(q))
 SumVecIntEnc(q) == IF q = <<>> THEN 0 ELSE VecIntEnc(Head(q)) + SumVecIntEnc(Tail(q))
 
 \* the framing: how many bytes an item occupies in the stream
 EncLen(it) ==
   CASE it.t \in PodTags      -> PodSize(it.t)
-    [] it.t \in {"str", "cstr"} -> StrEnc(it.v)
+    [] it.t \in StrTags      -> StrEnc(it.v)              \* size_t + size() bytes, NUL bytes included
+    [] it.t = "cstrb"        -> StrEnc(CPrefix(it.v))     \* size_t + strlen() bytes
     [] it.t = "vi"           -> VecIntEnc(it.v)
-    [] it.t = "vs"           -> SizeT + SumStrEnc(it.v)
+    [] it.t \in VsTags       -> SizeT + SumStrEnc(it.v)
+    [] it.t = "vvbs"         -> SizeT + SumVecStrEnc(it.v)
     [] it.t = "vvi"          -> SizeT + SumVecIntEnc(it.v)
     [] it.t = "raw"          -> Len(it.v)                 \* write(mem, n): no framing
     [] it.t \in ArrTags      -> SizeT + ElemSize(it.t) * Len(it.v)
@@ -60,11 +81,14 @@ RECURSIVE Flat(_)
 Flat(qq) == IF qq = <<>> THEN <<>> ELSE Head(qq) \o Flat(Tail(qq))
 StrParts(str) == <<SizeT, Len(str)>>
 VecIntParts(v) == <<SizeT>> \o [i \in 1..Len(v) |-> 4]
+VecStrParts(v) == <<SizeT>> \o Flat([i \in 1..Len(v) |-> StrParts(v[i])])
 RawParts(it, via) ==
   CASE it.t \in PodTags      -> <<PodSize(it.t)>>
-    [] it.t \in {"str", "cstr"} -> StrParts(it.v)
+    [] it.t \in StrTags      -> StrParts(it.v)
+    [] it.t = "cstrb"        -> StrParts(CPrefix(it.v))
     [] it.t = "vi"           -> VecIntParts(it.v)
-    [] it.t = "vs"           -> <<SizeT>> \o Flat([i \in 1..Len(it.v) |-> StrParts(it.v[i])])
+    [] it.t \in VsTags       -> VecStrParts(it.v)
+    [] it.t = "vvbs"         -> <<SizeT>> \o Flat([i \in 1..Len(it.v) |-> VecStrParts(it.v[i])])
     [] it.t = "vvi"          -> <<SizeT>> \o Flat([i \in 1..Len(it.v) |-> VecIntParts(it.v[i])])
     [] it.t = "raw"          -> <<Len(it.v)>>
     [] it.t \in ArrTags      -> IF via = "view" THEN <<SizeT, ElemSize(it.t) * Len(it.v)>>
@@ -78,19 +102,23 @@ Vias(it) == IF it.t \in ArrTags THEN {"vec", "view"}       \* std::vector<T> / s
 
 -------------------------------------------------------------------------------
 EmptyState == [items |-> <<>>, bytes |-> 0, calc |-> 0, phase |-> "writing", limit |-> 0, cursor |-> 0, idx |-> 0,
-               scratch |-> [str |-> "", vi |-> <<>>, vb |-> <<>>, vs |-> <<>>, vvi |-> <<>>]]   \* the harness' destination objects
+               scratch |-> [str |-> "", vi |-> <<>>, vb |-> <<>>, vs |-> <<>>, vvi |-> <<>>, vvs |-> <<>>]]   \* the harness' destination objects
 InitLast   == [a |-> "Init", arg |-> <<>>, cls |-> "", ok |-> TRUE, exp |-> [len |-> 0, total |-> 0, predicted |-> 0]]
 
 Rem(st)   == st.limit - st.cursor
 AtEnd(st) == st.cursor = st.limit                          \* what end() must return
 RdObs(st) == [cursor |-> st.cursor, end |-> AtEnd(st)]     \* the observable state of the reader
 
-\* ---- writing: the item goes to a BufferWriter and to a WriteSizeCalculator
-WriteStep(st, it) ==
-  LET n == EncLen(it) IN
+\* ---- writing: the item goes to a BufferWriter and to a WriteSizeCalculator and - when cap >= 0 -
+\* also to a FixedBufferWriter of capacity cap on its own.  The byte count is EncLen: computed
+\* here from the value, not taken from one of the writers.  cap = EncLen(it) is the exact fit: the
+\* item is accepted and fills the buffer (cap = -1: that writer is not exercised).
+WriteStep(st, it, cap) ==
+  LET n == EncLen(it)
+      e == [len |-> n, total |-> st.bytes + n, predicted |-> st.calc + n] IN
   [s    |-> [st EXCEPT !.items = Append(@, it), !.bytes = @ + n, !.calc = @ + n],
-   last |-> [a |-> "Write", arg |-> [item |-> it], cls |-> it.t, ok |-> TRUE,
-             exp |-> [len |-> n, total |-> st.bytes + n, predicted |-> st.calc + n]]]
+   last |-> [a |-> "Write", arg |-> [item |-> it, cap |-> cap], cls |-> it.t \o (IF HasNul(it) THEN ",nul" ELSE ""), ok |-> TRUE,
+             exp |-> IF cap >= 0 THEN e @@ [xfixed |-> [ret |-> "ok", written |-> n, available |-> 0]] ELSE e]]
 
 \* ---- a BufferReader over the first k bytes of what was written
 OpenStep(st, k) ==
@@ -112,14 +140,15 @@ ReadArg(it, via) == [t |-> it.t, via |-> via, n |-> IF it.t = "raw" THEN Len(it.
 \* (the harness replaces a scratch object by a new one after a read into it has thrown).
 DstType(it, via) ==
   CASE it.t \in PodTags                    -> "pod"      \* T x; buf >> x
-    [] it.t \in {"str", "cstr"}            -> "str"      \* std::string
+    [] it.t \in StrTags \cup {"cstrb"}     -> "str"      \* std::string
     [] it.t = "vi"                         -> "vi"       \* std::vector<int>
-    [] it.t = "vs"                         -> "vs"       \* std::vector<std::string>
+    [] it.t \in VsTags                     -> "vs"       \* std::vector<std::string>
+    [] it.t = "vvbs"                       -> "vvs"      \* std::vector<std::vector<std::string>>
     [] it.t = "vvi"                        -> "vvi"      \* std::vector<std::vector<int>>
     [] it.t \in IntArrTags /\ via = "vec"  -> "vi"
     [] it.t \in ByteArrTags /\ via = "vec" -> "vb"       \* std::vector<uint8_t>
     [] OTHER                               -> "none"     \* getView / read(mem, n): nothing to reuse
-ScratchTypes == {"str", "vi", "vb", "vs", "vvi"}
+ScratchTypes == {"str", "vi", "vb", "vs", "vvi", "vvs"}
 EmptyOf(T) == IF T = "str" THEN "" ELSE <<>>
 EmptyScratch == [T \in ScratchTypes |-> EmptyOf(T)]
 Dsts(it, via) == LET T == DstType(it, via) IN
@@ -132,7 +161,7 @@ DstCls(T, dst, prior, v) ==
   IF dst = "fresh" \/ T = "none" THEN "dst=fresh"
   ELSE IF T = "pod" THEN "dst=" \o dst
   ELSE LET common == 1..MinOf2(Len(prior), Len(v))
-           nested == T \in {"vs", "vvi"}
+           nested == T \in {"vs", "vvi", "vvs"}
        IN "dst=" \o dst \o "-"
           \o (IF Len(prior) > Len(v) THEN "longer" ELSE IF Len(prior) < Len(v) THEN "shorter" ELSE "same-length")
           \o (IF Len(v) = 0 /\ Len(prior) > 0 THEN ",empty-into-nonempty" ELSE "")
@@ -149,15 +178,15 @@ ReadStep(st, via, dst, pre) ==
       n    == EncLen(it)
       T    == DstType(it, via)
       cl   == it.t \o ":" \o via
-      dc   == DstCls(T, dst, Prior(st, T, dst, pre), it.v)
+      dc   == DstCls(T, dst, Prior(st, T, dst, pre), Val(it))
       arg  == [t |-> it.t, via |-> via, n |-> IF it.t = "raw" THEN Len(it.v) ELSE 0,
                dst |-> dst, pre |-> IF dst = "prepop" THEN pre ELSE 0]
       holds(x) == IF T \in ScratchTypes THEN [st.scratch EXCEPT ![T] = x] ELSE st.scratch
   IN IF n <= Rem(st)
-     THEN LET st2 == [st EXCEPT !.cursor = @ + n, !.idx = @ + 1, !.scratch = holds(it.v)] IN
+     THEN LET st2 == [st EXCEPT !.cursor = @ + n, !.idx = @ + 1, !.scratch = holds(Val(it))] IN
           [s |-> st2,
            last |-> [a |-> "Read", arg |-> arg, cls |-> cl \o ",fits," \o dc, ok |-> TRUE,
-                     exp |-> [ret |-> it.v, st |-> RdObs(st2)]]]
+                     exp |-> [ret |-> Val(it), st |-> RdObs(st2)]]]
      ELSE IF Atomic(it, via)
      THEN LET st2 == [st EXCEPT !.scratch = holds(EmptyOf(T))] IN
           [s |-> st2,
@@ -198,7 +227,7 @@ Take(r) == s' = r.s /\ last' = r.last
 
 Init == s = EmptyState /\ last = InitLast
 
-Write(it)  == s.phase = "writing" /\ Take(WriteStep(s, it))
+Write(it, cap) == s.phase = "writing" /\ (cap = -1 \/ cap = EncLen(it)) /\ Take(WriteStep(s, it, cap))
 Open(k)    == k \in 0..s.bytes /\ Take(OpenStep(s, k))
 OpenAll      == Open(s.bytes)                                   \* a reader over everything written
 OpenFrac(pm) == pm \in 0..1000 /\ Open((s.bytes * pm) \div 1000)   \* ... over the first pm/1000 of it
@@ -228,8 +257,8 @@ EndExactly    == (s.phase = "reading" /\ s.limit = s.bytes) =>
 \* a read that fits yields the value written, whatever the destination held; the destination holds it
 RoundTrip     == last.a = "Read" /\ last.ok =>
                     LET it == s.items[s.idx] T == DstType(it, last.arg.via) IN
-                    /\ last.exp.ret = it.v
-                    /\ T \in ScratchTypes => s.scratch[T] = it.v
+                    /\ last.exp.ret = Val(it)
+                    /\ T \in ScratchTypes => s.scratch[T] = Val(it)
 LastAgrees    == /\ "st" \in DOMAIN last.exp => last.exp.st.end = AtEnd(s) /\ last.exp.st.cursor = s.cursor
                  /\ "total" \in DOMAIN last.exp => last.exp.total = s.bytes /\ last.exp.predicted = s.calc
 ===============================================================================
